@@ -1,4 +1,6 @@
 import SSVerif.Proofs.Jsgf
+import SSVerif.Proofs.JsgfDesugar
+import SSVerif.Proofs.JsgfExpand
 /-!
 # C05 — JSGF compilation preserves the language of the grammar
 
@@ -34,14 +36,14 @@ theorem C05_table_represents {T : Table} {g : Grammar} (h : tableMatches T g = t
     (r : Nat) (ws : List Nat) : Der T.rules [.ref (.user r)] ws ↔ Lang g r ws :=
   matches_lang (tableMatches_spec h) r ws
 
-/-- **C05, desugaring preserves the language (partial).** Instance of `C05_table_represents` for
-the model of the parser actions.  The hypothesis is decided by evaluation for every generated
-grammar (the driver prints it).  Full statement, not proved:
-`∀ g, namesDistinct g = true → tableMatches (desugar g) g = true`
-(bookkeeping: the table only grows, internal names are fresh). -/
-theorem C05_desugar_preserves_partial {g : Grammar} (h : tableMatches (desugar g) g = true)
-    (r : Nat) (ws : List Nat) : Der (desugar g).rules [.ref (.user r)] ws ↔ Lang g r ws :=
-  C05_table_represents h r ws
+/-- **C05, desugaring preserves the language.** For every surface grammar with pairwise distinct
+rule names, the model of the parser actions (`desugar`: `jsgf_define_rule` numbering, groups,
+`jsgf_optional_new`, `jsgf_kleene_new`, alternatives chained in reverse) yields a table in which
+every user rule has exactly its JSGF denotation.  (The check additionally ties `desugar g` to the
+table the real scanner and parser build, for every generated grammar.) -/
+theorem C05_desugar_preserves (g : Grammar) (hnd : namesDistinct g = true) (r : Nat) (ws : List Nat) :
+    Der (desugar g).rules [.ref (.user r)] ws ↔ Lang g r ws :=
+  C05_table_represents (desugar_matches g hnd) r ws
 
 /-- **C05, what a passing comparison means.** `F` is any automaton (the check passes the FSG dumped
 from the real compiler), `T` a table representing `g`.  If the exploration of `T` from rule `<r>`
@@ -59,6 +61,29 @@ theorem C05_comparison_decides {T : Table} {g : Grammar} {r fuel n : Nat} {A F :
     exact ((nfaEquiv_sound (A := F) (B := A) (n := n)).1 h ws).trans (key ws)
   · intro w h hc
     exact (nfaEquiv_sound (A := F) (B := A) (n := n)).2 w h (hc.trans (key w).symm)
+
+/-- **C05, end to end for the model's table.** For every grammar with distinct rule names: if the
+exploration of `desugar g` from rule `<r>` returned `A` and the verified comparison of an automaton
+`F` (the dumped real FSG) with `A` answered "equal", then `F` accepts exactly the JSGF language of
+`<r>`; a returned word is a real difference. -/
+theorem C05_compiled_language (g : Grammar) (hnd : namesDistinct g = true) {r fuel n : Nat} {A F : Nfa}
+    (hA : explore (desugar g).rules (.user r) fuel = some A) :
+    (nfaEquiv F A n = .ok none → ∀ ws, Accepts F ws ↔ Lang g r ws) ∧
+    (∀ w, nfaEquiv F A n = .ok (some w) → ¬ (Accepts F w ↔ Lang g r w)) :=
+  C05_comparison_decides (desugar_matches g hnd) hA
+
+/-- **C05, refusal (mirror of `expand_rule`, partial).** `expandTop` mirrors `expand_rule` /
+`expand_rhs` (repaired) state by state and link by link; the check compares its states and links
+with the raw FSG of the real compiler exactly, for every generated grammar.  Proved: it refuses
+(returns `none`) exactly when `representable` is false — an undefined rule is reached, or a rule on
+the stack is referenced from a position that is not last along the whole chain back to it; in
+particular `<VOID>` never causes a refusal.
+Not proved (growth; full statement): `expand_correct : representable T top = true →
+∃ st, expandTop T top = some st ∧ ∀ ws, Accepts st.toNfa ws ↔ Der T.rules [.ref top] ws`.  Until then the
+language of every produced FSG is decided per grammar by `C05_compiled_language`. -/
+theorem C05_expand_refuses_partial (T : Table) (top : RName) :
+    (expandTop T top).isSome = representable T top :=
+  expandTop_isSome T top
 
 /-- **C05, weights.** Over ℚ: after `expand_rule`'s normalisation the weights of the first atoms of
 a rule's alternatives sum to one (when their sum is not 0; when it is 0 nothing changes), and
@@ -88,6 +113,7 @@ def exG3 : Grammar :=
   [{ name := 0, pub := true, body := (Alts.cons (.cons 1 0 (.tok 0) (.one 1 0 (.ref 0)))
       (.cons (.cons 1 0 .void (.one 1 0 (.tok 1))) (.one (.one 1 0 .null)))) }]
 
+example : namesDistinct exG1 = true ∧ namesDistinct exG2 = true ∧ namesDistinct exG3 = true := by decide +kernel
 example : tableMatches (desugar exG1) exG1 = true := by decide +kernel
 example : (desugar exG1).length = 5 := by decide +kernel
 example : (explore (desugar exG1).rules (.user 0) 100).isSome = true := by decide +kernel
@@ -97,6 +123,8 @@ example : representable (desugar exG2) (.user 0) = false := by decide +kernel
 example : representable (desugar exG2) (.user 1) = false := by decide +kernel
 example : (explore (desugar exG2).rules (.user 0) 60).isSome = false := by decide +kernel
 example : representable (desugar exG3) (.user 0) = true := by decide +kernel
+example : ((expandTop (desugar exG3) (.user 0)).map (·.nstate)) = some 6 := by decide +kernel
+example : (expandTop (desugar exG2) (.user 0)).isSome = false := by decide +kernel
 example : (explore (desugar exG3).rules (.user 0) 100).isSome = true := by decide +kernel
 /-- the denotation is inhabited and not everything: `z` and `x y z z w` are in, `w` is not -/
 example : Lang exG1 0 [2] := by
